@@ -2,6 +2,7 @@ import AV.Lemmas.Det
 import AV.Lemmas.IdLemmas
 import AV.Lemmas.JsonLemmas
 import AV.Pub.Util
+import AV.Pub.SideEffect
 /-
 C05, the wrapping clause: a non-activity posted to an outbox is wrapped in a Create whose actor is the outbox's owner,
 whose object is the value, and which copies the value's to, bto, cc, bcc, audience (as ids) and published.
@@ -236,6 +237,107 @@ theorem wrapInCreate_spec (o : J) (actor : Iri) (c : J) (h : runD ans (wrapInCre
         rw [e2]
         unfold setList
         split <;> (rw [J.get_set_same _ _ _ hc3, J.get_set_same _ _ _ (by rfl)])
+
+end
+end AV.Props.C05
+
+/-! ### fresh ids -/
+namespace AV.Props.C05
+open AV Prog Pub Val
+
+section
+variable (F : TFacts) {ans : (c : Call) → c.Resp}
+
+/-- the objects of a Create, each with the id the application generated for it -/
+def identified (ans : (c : Call) → c.Resp) (F : TFacts) : List J → Option (List J)
+  | [] => some []
+  | j :: rest => (match elemOf F j, identified ans F rest with
+    | .emb t, some more => (match ans (.newID t) with
+      | .ok oid => some (t.set "id" (iriJ oid) :: more)
+      | .error _ => none)
+    | _, _ => none)
+
+theorem runD_identify (f : List J → J → Prog (List J))
+    (hf : ∀ acc j, runD ans (f acc j) = (match elemOf F j with
+      | .emb t => (match ans (.newID t) with
+        | .ok oid => .ret (acc ++ [t.set "id" (iriJ oid)])
+        | .error e => .fail e)
+      | _ => .fail .lib))
+    (xs : List J) (acc out : List J) (h : runD ans (xs.foldlM f acc) = .ret out) :
+    ∃ more, identified ans F xs = some more ∧ out = acc ++ more := by
+  induction xs generalizing acc with
+  | nil =>
+    simp only [List.foldlM_nil, runD_pure, Outcome.ret.injEq] at h
+    exact ⟨[], rfl, by simp [h]⟩
+  | cons j rest ih =>
+    rw [List.foldlM_cons, runD_bind, hf acc j] at h
+    unfold identified
+    cases he : elemOf F j with
+    | emb t =>
+      simp only [he] at h
+      cases hid : ans (.newID t) with
+      | error e => simp [hid, Outcome.bindD] at h
+      | ok oid =>
+        simp only [hid, Outcome.bindD] at h
+        obtain ⟨more, h1, h2⟩ := ih _ h
+        refine ⟨t.set "id" (iriJ oid) :: more, ?_, ?_⟩
+        · simp [h1, hid]
+        · simp [h2, List.append_assoc]
+    | iri u => simp [he, Outcome.bindD] at h
+    | other x => simp [he, Outcome.bindD] at h
+
+/-- **C05 (fresh ids)**: whenever `addNewIDs` returns, the activity carries the id the application's `NewID`
+generated for it and — for a Create — its `object` property holds the embedded objects, each with the id generated for
+it (an object given by IRI makes it fail) -/
+theorem addNewIDs_spec (a a' : J) (hobj : a.isObj = true) (h : runD ans (addNewIDs F a) = .ret a') :
+    ∃ id, ans (.newID a) = .ok id ∧
+      (if F.isOrExt "Create" (typeName (a.set "id" (iriJ id))) then
+        (match prop F (a.set "id" (iriJ id)) "object" with
+         | none => a' = a.set "id" (iriJ id)
+         | some xs => ∃ objs, identified ans F xs = some objs ∧ a' = setList (a.set "id" (iriJ id)) "object" objs)
+       else a' = a.set "id" (iriJ id)) := by
+  unfold addNewIDs at h
+  rw [runD_bind] at h
+  have hnew : runD ans (Op.newID a) = (match ans (.newID a) with
+      | .ok id => .ret id
+      | .error e => .fail e) := by
+    show runD ans (Op.ofE (ans (.newID a))) = _
+    cases ans (.newID a) <;> rfl
+  rw [hnew] at h
+  cases hid : ans (.newID a) with
+  | error e => simp [hid, Outcome.bindD] at h
+  | ok id =>
+    refine ⟨id, rfl, ?_⟩
+    simp only [hid, Outcome.bindD] at h
+    split
+    · rename_i hc
+      simp only [hc, Bool.not_true, Bool.false_eq_true, if_false] at h
+      cases hp : prop F (a.set "id" (iriJ id)) "object" with
+      | none => simp only [hp, runD_pure, Outcome.ret.injEq] at h; simp only; exact h.symm
+      | some xs =>
+        simp only [hp] at h ⊢
+        rw [runD_bind] at h
+        cases hfold : runD ans (List.foldlM _ [] xs) with
+        | fail e => rw [hfold] at h; simp [Outcome.bindD] at h
+        | panic s => rw [hfold] at h; simp [Outcome.bindD] at h
+        | ret out =>
+          rw [hfold] at h
+          simp only [Outcome.bindD, runD_pure, Outcome.ret.injEq] at h
+          obtain ⟨more, h1, h2⟩ := runD_identify F _ (by
+            intro acc j
+            cases he : elemOf F j with
+            | emb t =>
+              simp only
+              rw [runD_bind]
+              show (runD ans (Op.ofE (ans (.newID t)))).bindD _ = _
+              cases ans (.newID t) <;> rfl
+            | iri u => rfl
+            | other x => rfl) xs [] out hfold
+          refine ⟨more, h1, ?_⟩
+          rw [← h, h2]; simp
+    · rename_i hc
+      simp only [hc, Bool.not_false, if_true, runD_pure, Outcome.ret.injEq] at h
+      exact h.symm
 
 end
 end AV.Props.C05
